@@ -38,7 +38,7 @@ func init() {
 			"(b) PRNG-generated rules-valid streams with all generator features on (comments, padding, chunked arrays, OnArray vs OnStringlikeArray, media, custom binary/text, markers, records, " +
 			"nil big numbers, NaN as float/decimal/big decimal, occasional OnError), (c) mutants of those (event deleted / duplicated / swapped / inserted / argument damaged / truncated, or a tightened limit) " +
 			"which the validator rejects part-way. Every fourth stream is delivered by a producer that reuses one buffer (4-8 KiB, spare capacity behind every argument) for the byte argument of every event, " +
-			"the others with a fresh slice per event. Oracle = the recorder's log equals, event by event and argument by argument (floats by bits, big numbers by value, sign and precision, " +
+			"the others with a fresh slice per event; every fifth validator has first been driven with another stream (whole or cut short) and Reset(). Oracle = the recorder's log equals, event by event and argument by argument (floats by bits, big numbers by value, sign and precision, " +
 			"decimals field-wise, times field-wise, byte slices and strings byte-wise), the input events up to (not including) the rejected one after applying only the two rewrites of the property. " +
 			"Non-trivial = >=1 container and >=3 value events; distinct = distinct rendered input logs.",
 		Assumptions: []string{"a nil byte slice and an empty byte slice are the same argument", "the kind of a float64 NaN is its quiet bit (bit 51)",
@@ -46,7 +46,7 @@ func init() {
 		Cases: func(tier string) int { return tierN(tier, 40000, 1200000) },
 		Run:   runC15,
 		Floors: func(string) map[string]int64 {
-			m := map[string]int64{"delivery.shared-buffer": 5000, "streams_accepted": 3000, "streams_rejected_partway": 500, "events_compared": 50000,
+			m := map[string]int64{"delivery.shared-buffer": 5000, "delivery.after-reset": 4000, "streams_accepted": 3000, "streams_rejected_partway": 500, "events_compared": 50000,
 				"rewrite.nil.bint": 1, "rewrite.nil.bfloat": 1, "rewrite.nil.bdfloat": 1,
 				"rewrite.nan.float.quiet": 1, "rewrite.nan.float.signaling": 1, "rewrite.nan.dfloat.quiet": 1, "rewrite.nan.dfloat.signaling": 1,
 				"rewrite.nan.bdfloat.quiet": 1, "rewrite.nan.bdfloat.signaling": 1}
@@ -452,6 +452,18 @@ func runC15(c *fw.Ctx, idx int) {
 	c.Region("rules")
 	rec := &ev.Recorder{}
 	r := rules.NewRules(rec, cfg)
+	if idx%5 == 3 {
+		// a validator that has already seen another document (complete or given up part-way) and was Reset()
+		warm := c15GenStream(c)
+		if c.Rng.Intn(2) == 0 {
+			warm = warm[:1+c.Rng.Intn(len(warm))]
+		}
+		ev.Replay(r, warm)
+		r.Reset()
+		rec.Reset()
+		mode += "+after-reset"
+		c.Inc("delivery.after-reset")
+	}
 	var rej int
 	var why interface{}
 	if idx%4 == 1 {
